@@ -1,0 +1,25 @@
+//go:build verif
+
+// Verification hooks (build tag "verif"): read-only access to what New opened, so that an external harness can
+// talk to a daemon listening on 127.0.0.1:0 and make a listener fail underneath Serve. Add-only; not compiled
+// into normal builds.
+
+package daemon
+
+import (
+	"net"
+
+	"github.com/sassoftware/relic/v8/server"
+)
+
+// VerifAddrs returns the URLs of the main listeners in the order New opened them.
+func (d *Daemon) VerifAddrs() []string { return d.addrs }
+
+// VerifListeners returns the main listeners in the order New opened them.
+func (d *Daemon) VerifListeners() []net.Listener { return d.listeners }
+
+// VerifMetrics returns the metrics listener (nil if none).
+func (d *Daemon) VerifMetrics() net.Listener { return d.metrics }
+
+// VerifServer returns the server the daemon wraps.
+func (d *Daemon) VerifServer() *server.Server { return d.server }
